@@ -112,4 +112,14 @@ CHECKS['C09'] = {
   'technique': 'sign-domain evaluation of extracted return expressions, narrowing-conversion detection, sibling decision-table agreement',
 }
 
+CHECKS['C08'] = {
+  'text': 'Decides the wiring of dispatch: each cache entry tests, fills and returns one distinct slot with the scan for its own '
+          'class; lookups keep no state besides idempotent memoisation in the queried record; the scan starts at the first declared '
+          'instance, stops at the NULL triple and matches by pointer then exact name; static and run-time type records agree with '
+          'the accessors on every index (per configuration in the thorough tier); ClassError/ValueError guards dominate; no member '
+          'of an unchecked instance table is called. Does not decide memory-model behaviour of the benign races.',
+  'note': ASSUME,
+  'technique': 'table agreement over expanded macro entries, who-may-write effect analysis, layout comparison, guard dominance',
+}
+
 NOT_APPLICABLE = {}
